@@ -79,6 +79,27 @@ def cfg_data_blocks(ctx):
     ok = len(sa) == 1 and _field(ctx, fn, sa[0].args[0], sa[0], var) == 'address'
     ctx.check(ok, 'data-block:address', fn.site(sa[0]) if sa else fn.site(lp), 'the line is placed at the block\'s `address`', '; '.join(unparse(c) for c in sa) or 'no set_start_address')
     res = resolver(ctx, fn, inline=False)
+    # the block lies inside GLOBAL (else exit) before its line is created
+    from engine.helpers import lit_cmp
+    from engine.lin import clause_implies
+    cl_ = facts_at(ctx, fn, ctors[0], res)
+    a_, n_ = None, None
+    for t_ in walk_no_nested(lp):
+        if isinstance(t_, (ast.Assign, ast.AnnAssign)) and isinstance(getattr(t_, 'value', None), ast.Subscript) and unparse(t_.value.value) == var and isinstance(t_.value.slice, ast.Constant):
+            tn = unparse(t_.targets[0] if isinstance(t_, ast.Assign) else t_.target)
+            if t_.value.slice.value == 'address':
+                a_ = tn
+            if t_.value.slice.value == 'size':
+                n_ = tn
+    ok = a_ is not None and n_ is not None
+    if ok:
+        gz = ['memzone_manager.global_zone'] + [unparse(t_.targets[0]) for t_ in ast.walk(fn.node) if isinstance(t_, ast.Assign) and unparse(t_.value) == 'memzone_manager.global_zone']
+        ok = False
+        for g_ in gz:
+            lo = lit_cmp(ctx, fn, f'{a_} >= {g_}.start', res)
+            hi = lit_cmp(ctx, fn, f'{a_} + {n_} - 1 <= {g_}.end', res)
+            ok = ok or (clause_implies(cl_, lo) and clause_implies(cl_, hi))
+    ctx.check(ok, 'data-block:inside-GLOBAL', fn.site(ctors[0]), 'a predefined data block is accepted only if all of it lies inside the GLOBAL zone', describe_facts(cl_))
     apps = [c for c in ast.walk(lp) if isinstance(c, ast.Call) and isinstance(c.func, ast.Attribute) and c.func.attr == 'append' and c.args and unparse(c.args[0]) == obj]
     ok = len(apps) == 1 and filter_facts_at(ctx, fn, apps[0], res) == []
     ctx.check(ok, 'data-block:every-block-kept', fn.site(apps[0]) if apps else fn.site(lp), 'every block\'s line is added to the predefined line list (no selection)',
@@ -149,6 +170,26 @@ def cfg_zones(ctx):
             ok = got == [mm.param_names[1], f"{v}['start']", f"{v}['end']", f"{v}['name']"]
             detail = str(got)
     ctx.check(ok, 'zones:own-bounds', mm.site(), 'each predefined zone is MemoryZone(address bits, its start, its end, its name), stored under its name, none skipped', detail)
+    # containment in GLOBAL, as for zones created in source
+    res = resolver(ctx, mm, inline=False)
+    hit = None
+    for lp in [l for l in walk_no_nested(mm.node) if isinstance(l, ast.For)]:
+        it = unparse(lp.iter)
+        if it not in ('self._zones.values()', 'list(self._zones.values())') or not isinstance(lp.target, ast.Name):
+            continue
+        z = lp.target.id
+        for i in [x for x in walk_no_nested(lp) if isinstance(x, ast.If)]:
+            from engine.helpers import body_only_aborts
+            from engine.lin import to_cnf
+            if not body_only_aborts(i.body):
+                continue
+            got = to_cnf(i.test, True, res)
+            want = to_cnf(ast.parse(f'{z}.start < self.global_zone.start or {z}.end > self.global_zone.end', mode='eval').body, True, res)
+            if got == want and filter_facts_at(ctx, mm, i, res) == []:
+                hit = i
+    ctx.check(hit is not None, 'zones:predefined-inside-GLOBAL', mm.site(hit) if hit is not None else mm.site(),
+              'every predefined zone is rejected unless GLOBAL.start <= start and end <= GLOBAL.end',
+              'no aborting containment test over all zones in the manager\'s constructor: code can be assembled outside GLOBAL')
 
 
 # ------------------------------------------------------------------------------------------------ state discipline
